@@ -99,4 +99,4 @@ QUERIES = [
                                "dag": "pointers symbolic"},
           outside=["more than two targets", "targets that are inputs", "N > 3"]),
 ]
-BUDGET = {"quick": 400, "thorough": 2400}
+BUDGET = {"quick": 400, "thorough": 1200}
